@@ -56,11 +56,7 @@ class Public(Case):
 
     def inputs(self, mk):
         p = self.params
-        share = p.get("share", {})  # shell index -> index of the earlier shell whose centre it sits on
-        specs = []
-        for i, (l, K, M) in enumerate(zip(p["ls"], p["Ks"], p["Ms"])):
-            coord = specs[share[str(i)]]["A"] if str(i) in share else None
-            specs.append(shell_spec(mk, "ABCD"[i], l, K, M, coord=coord))
+        specs = cm.specs_from(mk, p)
         return dict(specs=specs)
 
     def code(self, I, mk):
@@ -97,6 +93,8 @@ def cases(tier):
     # a "molecule": two shells on one atom (sharing its coordinate array) and one on another atom, evaluated twice
     out.append(Public(ls=[0, 1, 0], types="ccc", Ks=[1, 1, 1], Ms=[1, 1, 1], share={"1": 0}, twice=True))
     out.append(Public(ls=[0, 1, 2, 0], types="csss", Ks=[2, 1, 1, 1], Ms=[1, 1, 1, 1], share={"1": 0, "3": 2}))
+    # homonuclear: the same shell parameters on two centres
+    out.append(Public(ls=[1, 1, 0], types="ccc", Ks=[1, 1, 1], Ms=[1, 1, 1], twin={"1": 0}, share={"2": 0}))
     if tier == "thorough":
         E = cm.EXP_POOL
         for la in range(4):
